@@ -1,11 +1,12 @@
 """C14: phonetic layouts sound and complete for word.src readings; keyboard ASCII identity
 (proof + exhaustive correspondence of the transition tables + oracles on the implementation)."""
 import collections
+import glob
 import json
 import os
 import threading
 
-from .common import (BUILD, GEN, Result, count_lines, driver_path, first_difference, harness_path, sh, standard_build)
+from .common import (BUILD, GEN, REPLAYS, Result, count_lines, driver_path, first_difference, harness_path, sh, standard_build)
 from .c14_cases import gen_cases
 
 DRIVER = driver_path("c14")
@@ -39,6 +40,9 @@ def _behaviour_histogram(path):
 
 def run(tier):
     res = Result(PROP, tier, "proof")
+    # replays of earlier runs of this tier are stale
+    for f in glob.glob(os.path.join(REPLAYS, PROP, tier + "-*.json")):
+        os.remove(f)
     st = standard_build(res, PROP, group="c14", harness_bin="c14",
                         model_deps=["theories/Model/LayoutSearch.vo"], tablegen_groups=TABLEGEN_GROUPS)
     work, p = _paths(tier)
@@ -78,7 +82,7 @@ def run(tier):
             res.coverage["distinct_nontrivial"] += sum(l.get("raw_states", 0) + l.get("committable", 0) for l in o["layouts"])
             for f in o["failures"][:40]:
                 found = True
-                res.add_violation("oracle-" + f["signature"], {
+                res.add_violation("oracle-" + "-".join(f["signature"].split(":")[:2]), {
                     "kind": "input", "signature": f["signature"], "oracle": f["oracle"], "driver": "c14 replay",
                     "input": f["input"], "detail": f["detail"]}, True)
         except (OSError, ValueError, KeyError) as e:
@@ -192,6 +196,16 @@ def replay(path):
         rc, out, _ = sh([HARNESS, "replay"] + r["input"].split())
         print(out)
         return rc
+    if r.get("kind") == "input" and sig.split(":")[0] in ("handed", "panic", "state", "fields"):
+        # input: "<layout> keys k,k,.." (key classes) or "<layout> bytes b,b,.." (Pinyin, typed on Qwerty)
+        toks = r["input"].split()
+        if len(toks) >= 3 and toks[0] in LAYOUTS:
+            l = str(LAYOUTS.index(toks[0]))
+            vals = [x for x in toks[2].split(",") if x]
+            cmd = ["classes", l] + vals if toks[1] == "keys" else ["keys", "0", l] + vals
+            rc, out, _ = sh([HARNESS, "replay"] + cmd)
+            print(out)
+            return rc
     if r.get("kind") == "input" and sig.startswith("ascii-identity:"):
         rc, out, _ = sh([HARNESS, "replay", "ascii"] + r["input"].split())
         print(out)
